@@ -134,6 +134,7 @@ def hypothesis_search(prop, tier, seed_val, max_examples, time_cap, stats, known
             if state["target"] is None:
                 state["target"] = v.sig
                 state["t_fail"] = time.time()
+                state["first"] = (case, v)
             if v.sig == state["target"]:
                 state["cache"][case_digest(case)] = v
                 state["last"] = (case, v)
@@ -156,6 +157,18 @@ def hypothesis_search(prop, tier, seed_val, max_examples, time_cap, stats, known
             remaining -= state["gen"]
             continue
         except hypothesis.errors.HypothesisException as e:
+            flaky = type(e).__name__ in ("Flaky", "FlakyFailure", "FlakyReplay", "FlakyStrategyDefinition")
+            if flaky and state.get("first") is not None and type(e).__name__ != "FlakyStrategyDefinition":
+                # The oracle did observe a violation, but the same case did not fail again when Hypothesis replayed
+                # it: the outcome depends on what the process did before (state leaking between operations).  That
+                # is a property violation in its own right; it is reported unshrunk, flagged as history-dependent.
+                case, v = state["first"]
+                v = Violation(v.sig + ":history-dependent", v.msg + " [not reproducible in isolation: the verdict "
+                              "depended on earlier operations in the same process]", v.detail)
+                found[v.sig] = (case, v)
+                found[state["target"]] = (case, v)
+                remaining -= state["gen"]
+                continue
             raise HarnessError("hypothesis: %s: %s" % (type(e).__name__, e))
         break
     return found
